@@ -2,21 +2,20 @@
 //@ props C06 C01
 //@ kind P
 //@ enforce ElemStack_addPrefix
-//@ replace ElemStack_expandMap
+//@ replace memcpy
 //@ replace XMLStringPool_addOrFind
 //@ cbmc all --unsigned-overflow-check
 //@ entry h_elemstack_addPrefix
-//@ note loop-free; every map capacity 0 or 4..2^40; expandMap is replaced by the contract proved in unit elemstack_expandMap; XMLStringPool::addOrFind is contract-only (returns a non-zero id; ids injective on strings is an assumption about StringPool.cpp)
-//@ note the heap shape is built by the harness: a stack array of 4 row pointers, fStackTop in 0..4, rows are distinct objects, each with its own dynamic map array of arbitrary capacity; "every other entry of every row unchanged" is the assigns clause (only the top row's map members and map array are assignable)
+//@ note loop-free; every map capacity 0 or 4..2^40; the real body of expandMap is inlined (replacing it by its contract havocs the fMap pointer, and cbmc 6.11 then case-splits every later dereference over all objects: out of memory); memcpy is replaced by its C11 contract; XMLStringPool::addOrFind is contract-only (returns a non-zero id; ids injective on strings is an assumption about StringPool.cpp)
+//@ note the heap shape is built by the harness: a stack array of 4 row pointers, fStackTop one of 0, 1, 3 (the body only touches fStack[fStackTop - 1]), rows are distinct objects, each with its own dynamic map array of arbitrary capacity; "every other entry of every row unchanged" is the assigns clause (only the top row's map members and map array are assignable)
 #define VERIF_DEFINE_GHOSTS
 #include "verif_prelude.h"
 #include <stdlib.h>
 //@ include ElemStack_ri.inc
 
 /*@extract src/xercesc/internal/ElemStack.cpp ElemStack::expandMap
-declonly
-contract
-CONTRACT_expandMap
+sub fMemoryManager->allocate => verif_alloc
+sub fMemoryManager->deallocate => verif_free
 @*/
 
 /*@extract src/xercesc/internal/ElemStack.cpp ElemStack::addPrefix
@@ -27,26 +26,35 @@ CONTRACT_addPrefix
 @*/
 
 struct { struct StackElem r[4]; } ROWS;
+unsigned int URI; XMLCh PFX[2];
+/* one concrete stack depth per call site: the body only touches fStack[fStackTop - 1] */
+#define RUN_WITH_TOP(top) { \
+  fStackTop = (top); \
+  TOPROW = &ROWS.r[0]; \
+  if ((top) != 0) { \
+    struct StackElem *t = &ROWS.r[(top) - 1]; TOPROW = t; \
+    VERIF_ASSUME(t->fMapCapacity <= VERIF_STK_MAX); \
+    t->fMap = t->fMapCapacity ? malloc(t->fMapCapacity * sizeof(struct PrefMapElem)) : 0; \
+    VERIF_ASSUME(t->fMapCapacity == 0 || t->fMap != 0); \
+  } \
+  ElemStack_addPrefix(PFX, URI); }
+
 void h_elemstack_addPrefix(void)
 {
-  unsigned int uri; XMLCh pfx[2];
-  VERIF_INPUT(SELF); VERIF_INPUT(ROWS); VERIF_INPUT(G); VERIF_INPUT(NEXTSIZE); VERIF_INPUT(uri);
+  int depth;
+  VERIF_INPUT(SELF); VERIF_INPUT(ROWS); VERIF_INPUT(G); VERIF_INPUT(NEXTSIZE); VERIF_INPUT(URI); VERIF_INPUT(depth);
   fStackCapacity = 4;
   fStack = malloc(4 * sizeof(struct StackElem *));
-  VERIF_ASSUME(fStack != 0 && fStackTop <= 4);
+  VERIF_ASSUME(fStack != 0);
   fStack[0] = &ROWS.r[0]; fStack[1] = &ROWS.r[1]; fStack[2] = &ROWS.r[2]; fStack[3] = &ROWS.r[3];
-  /* the top row (if any) gets a real map array; the other rows are never touched (frame) */
-  if (fStackTop != 0) {
-    struct StackElem *top = fStack[fStackTop - 1];
-    VERIF_ASSUME(top->fMapCapacity <= VERIF_STK_MAX);
-    top->fMap = top->fMapCapacity ? malloc(top->fMapCapacity * sizeof(struct PrefMapElem)) : 0;
-    VERIF_ASSUME(top->fMapCapacity == 0 || top->fMap != 0);
-  }
+  ROWS.r[0].fMap = 0; ROWS.r[1].fMap = 0; ROWS.r[2].fMap = 0; ROWS.r[3].fMap = 0;   /* rows other than the top one: arbitrary members, no map array */
   NEXTBUF = malloc(NEXTSIZE); NEXTUSED = 0;
   VERIF_ASSUME(NEXTBUF != 0);
   GW = G;
-  pfx[0] = 'p'; pfx[1] = 0;
+  PFX[0] = 'p'; PFX[1] = 0;
   verif_thrown = 0;
-  ElemStack_addPrefix(pfx, uri);
+  if (depth == 0) RUN_WITH_TOP(0)
+  else if (depth == 1) RUN_WITH_TOP(1)
+  else RUN_WITH_TOP(3)
   VERIF_CANARY("after call");
 }
